@@ -168,6 +168,7 @@ var c03EntryByName = func() map[string]*entryPoint {
 }()
 
 type c03Case struct {
+	Span     bool   `json:"span_cache,omitempty"`
 	Entry    string `json:"entry"`
 	Type     int8   `json:"type,omitempty"`
 	InputHex string `json:"input_hex"`
@@ -176,8 +177,25 @@ type c03Case struct {
 
 var c03Arena *arena.Arena
 
-// c03Call runs one entry point on one input in the three placements.
+// c03SpanEntries: entry points that copy strings out of the input and therefore go through the span-cache allocator
+// when it is switched on; these run under both settings.
+var c03SpanEntries = map[string]bool{"Binary.ReadString": true, "Binary.ReadBinary": true, "Binary.ReadMessageBegin": true, "Base.FastRead": true, "BaseResp.FastRead": true,
+	"ApplicationException.FastRead": true, "FastUnmarshal(Base)": true, "UnmarshalFastMsg(Base)": true, "ConvertUnknownFields": true}
+
+// c03Call runs one entry point on one input in the three placements (and under both allocator settings where they matter).
 func c03Call(c *mc.Ctx, ep *entryPoint, in []byte, t int8, desc string) {
+	c03CallSpan(c, ep, in, t, desc, false)
+	if c03SpanEntries[ep.name] {
+		thrift.SetSpanCache(true)
+		c03CallSpan(c, ep, in, t, desc, true)
+		thrift.SetSpanCache(false)
+	}
+}
+
+func c03CallSpan(c *mc.Ctx, ep *entryPoint, in []byte, t int8, desc string, span bool) {
+	if span {
+		desc += ", span cache on"
+	}
 	if c03Arena == nil {
 		c03Arena = arena.New(40)
 	}
@@ -192,7 +210,7 @@ func c03Call(c *mc.Ctx, ep *entryPoint, in []byte, t int8, desc string) {
 	bad := func(class, format string, a ...interface{}) {
 		c.Violate("entry", fmt.Sprintf("C03|%s|%s", ep.name, class),
 			fmt.Sprintf("%s(type %d) on %s (%s): ", ep.name, t, mc.Hex(in), desc)+fmt.Sprintf(format, a...),
-			c03Case{Entry: ep.name, Type: t, InputHex: hex.EncodeToString(in), Desc: desc})
+			c03Case{Span: span, Entry: ep.name, Type: t, InputHex: hex.EncodeToString(in), Desc: desc})
 	}
 	var d [3]string
 	var n [3]int
@@ -317,6 +335,10 @@ func init() {
 		},
 		Replay: func(c *mc.Ctx, sub string, raw json.RawMessage) {
 			replayAs(raw, func(k c03Case) {
+				if k.Span {
+					thrift.SetSpanCache(true)
+					defer thrift.SetSpanCache(false)
+				}
 				b, _ := hex.DecodeString(k.InputHex)
 				setAllocCap(64 << 20)
 				ep := c03EntryByName[k.Entry]
